@@ -154,8 +154,35 @@ class Scalar:
         return N
 
     def scalar_cases(self, t, path, env):
+        # a two-element table indexed by a comparison (`[release, attack][(l < d) as usize]`) is a selection: one case each
+        sel = self.find_select(t)
+        if sel is not None:
+            from rules.common import substitute
+            term, cond, x0, x1 = sel
+            out = []
+            for truth, x in ((False, x0), (True, x1)):
+                k = self.cond_of(cond, ('bool', truth), path, env)
+                if k is None:
+                    raise Unsupported('table indexed by something that is not a scalar comparison')
+                for c2, v2 in self.scalar_cases(substitute(t, term, x), path, env):
+                    out.append(((k,) + c2, v2))
+            return out
         N = self.normalizer(path, env)
         return [((), N(t))]
+
+    @staticmethod
+    def find_select(t):
+        if not isinstance(t, tuple) or not t:
+            return None
+        if t[0] == 'index' and len(t) == 3 and isinstance(t[1], tuple) and t[1][0] == 'agg' and t[1][1] and t[1][1][0] == 'array' and len(t[1][2]) == 2 \
+                and isinstance(t[2], tuple) and t[2][0] == 'cast' and isinstance(t[2][2], tuple) \
+                and (t[2][2][0] == 'op' or (t[2][2][0] == 'app' and str(t[2][2][1]).startswith(('core::cmp::PartialOrd::', 'core::cmp::PartialEq::'))) or t[2][2][0] == 'un'):
+            return t, t[2][2], t[1][2][0], t[1][2][1]
+        for x in t:
+            r = Scalar.find_select(x)
+            if r is not None:
+                return r
+        return None
 
     def cond_of(self, c, v, path, env):
         """(rel, RF) for a branch condition, or None if it is not a scalar comparison"""
